@@ -1,9 +1,10 @@
 (* C26 — executable entry points of the correspondence check: the fixture
    filesystem (a symlink-free tree placed under a base directory), run_case
-   and check_case. *)
+   (a sequence of requests / static_url calls against one Application with
+   several StaticFileHandlers sharing the hash cache) and check_case. *)
 From Coq Require Import List NArith ZArith String Ascii Bool.
 Import ListNotations.
-From TV Require Import Lib.Obs C26.Model.
+From TV Require Import Lib.Obs C26.Model C26.Seq.
 Local Open Scope N_scope.
 
 Definition s2l (s : string) : str := map N_of_ascii (list_ascii_of_string s).
@@ -93,30 +94,44 @@ Definition fs_fix (base : str) (p : str) : fkind :=
        end.
 
 (* ---------- run_case ---------- *)
-(* input: (base, cwd, root, route prefix, default_filename, request.path) *)
-Definition input := (str * str * str * str * option str * str)%type.
+(* one handler: (root, route prefix, default_filename) *)
+Definition hcfg := (str * str * option str)%type.
+(* input: (base, os.getcwd() WITHOUT its leading "/", static_hash_cache setting, handlers in
+   route order, operations).  The content hash H is the identity: the harness replaces every
+   SHA-512 hex digest it sees by the content it is the digest of. *)
+Definition input := (str * str * bool * list hcfg * list op)%type.
+
+Definition app_of (cwd_tail : str) (hs : list hcfg) : list cfg :=
+  map (fun h : hcfg => let '(root, prefix, dflt) := h in
+         {| c_cwd := SLASH :: cwd_tail; c_root := root; c_prefix := prefix; c_default := dflt |}) hs.
 
 Definition ostr (o : option str) : obs :=
   match o with Some s => OBytes s | None => ONone end.
 
-Definition obs_of (r : resp) : obs :=
-  let '(loc, body, ab) :=
-    match r with
-    | RNoRoute | RBadEncoding => (None, [], None)
-    | RForbiddenOutside a | RForbiddenSlashes a => (None, [], Some a)
-    | RRedirect l a => (Some l, [], Some a)
-    | RNotFound a _ | RNotFile a _ => (None, [], Some a)
-    | ROk a _ c => (None, c, Some a)
-    end in
-  OList [OInt (status r); ostr loc; OBytes body; ostr ab].
+Definition resp_parts (r : resp) : option str * str * option str :=
+  match r with
+  | RNoRoute | RBadEncoding => (None, [], None)
+  | RForbiddenOutside a | RForbiddenSlashes a => (None, [], Some a)
+  | RRedirect l a => (Some l, [], Some a)
+  | RNotFound a _ | RNotFile a _ => (None, [], Some a)
+  | ROk a _ c => (None, c, Some a)
+  end.
 
-Definition cfg_of (i : input) : cfg :=
-  let '(base, cwd, root, prefix, dflt, raw) := i in
-  {| c_cwd := cwd; c_root := root; c_prefix := prefix; c_default := dflt |}.
+Definition obs_of_out (o : sout) : obs :=
+  match o with
+  | SReq m r etag =>
+      let '(loc, body, ab) := resp_parts r in
+      OList [OInt (status r); ostr loc;
+             OBytes (match m with GET => body | HEAD => [] end); ostr ab; ostr etag]
+  | SUrl u => OList [OBytes u]
+  | SBadHandler => OTag "BadHandler"
+  end.
+
+Definition hash_id (s : str) : str := s.
 
 Definition run_case (i : input) : obs :=
-  let '(base, cwd, root, prefix, dflt, raw) := i in
-  obs_of (respond (cfg_of i) (fs_fix base) raw).
+  let '(base, cwd_tail, hash_cache, hs, ops) := i in
+  OList (map obs_of_out (run_seq hash_id (fs_fix base) (app_of cwd_tail hs) hash_cache [] ops)).
 
 (* ---------- check_case: the property on an observable ---------- *)
 Definition cleanb (s : str) : bool :=
@@ -148,31 +163,75 @@ Fixpoint prefixb (r s : list str) : bool :=
 
 Definition is_onone (o : obs) : bool := match o with ONone => true | _ => false end.
 
-Definition check_case (i : input) (o : obs) : bool :=
-  let '(base, cwd, root, prefix, dflt, raw) := i in
+(* get() was reached and computed the absolute path abs *)
+Definition check_abs (base cwd root raw : str) (st : Z) (loc : obs) (body abs : str) : bool :=
+  abs_okb abs &&
+  match kresolve base (if starts_with_slash root then root else join cwd root) with
+  | None => true          (* root is not a location of the fixture *)
+  | Some (rl, _) =>
+      if prefixb (rev rl) (segs_of abs) then
+        if (st =? 301)%Z then
+          obs_eqb loc (OBytes (raw ++ [SLASH])) && is_empty body
+          && negb (startswith [SLASH; SLASH] raw) && negb (ends_with_slash raw)
+        else
+          ((st =? 200) || (st =? 403) || (st =? 404))%Z && is_onone loc
+          && ((st =? 200)%Z || is_empty body)
+      else
+        (* outside the root: 403 whatever the filesystem (or the hash cache) holds *)
+        (st =? 403)%Z && is_onone loc && is_empty body
+  end.
+
+(* Etag only on 200; for GET it is the hash of the body that was sent *)
+Definition etag_ok (m : meth) (st : Z) (body : str) (et : obs) : bool :=
+  if (st =? 200)%Z then
+    match m with
+    | GET => obs_eqb et (match body with [] => ONone | _ => OBytes body end)
+    | HEAD => true
+    end
+  else is_onone et.
+
+(* one request answered by handler c *)
+Definition check_req (base : str) (c : cfg) (m : meth) (raw : str) (o : obs) : bool :=
   match o with
-  | OList [OInt st; loc; OBytes body; ab] =>
+  | OList [OInt st; loc; OBytes body; ab; et] =>
+      etag_ok m st body et &&
+      match m with HEAD => is_empty body | GET => true end &&
       match ab with
       | ONone =>
           (* get() was not reached: no filesystem access at all *)
           ((st =? 400) || (st =? 404))%Z && is_onone loc && is_empty body
-      | OBytes abs =>
-          abs_okb abs &&
-          match kresolve base (if starts_with_slash root then root else join cwd root) with
-          | None => true          (* root is not a location of the fixture *)
-          | Some (rl, _) =>
-              if prefixb (rev rl) (segs_of abs) then
-                if (st =? 301)%Z then
-                  obs_eqb loc (OBytes (raw ++ [SLASH])) && is_empty body
-                  && negb (startswith [SLASH; SLASH] raw) && negb (ends_with_slash raw)
-                else
-                  ((st =? 200) || (st =? 403) || (st =? 404))%Z && is_onone loc
-                  && ((st =? 200)%Z || is_empty body)
-              else
-                (* outside the root: 403 whatever the filesystem holds there *)
-                (st =? 403)%Z && is_onone loc && is_empty body
-          end
+      | OBytes abs => check_abs base (c_cwd c) (c_root c) raw st loc body abs
       | _ => false
       end
+  | _ => false
+  end.
+
+Definition no_route_obs : obs := OList [OInt 404; ONone; OBytes []; ONone; ONone].
+
+Fixpoint check_ops (base : str) (app : list cfg) (ops : list op) (outs : list obs) : bool :=
+  match ops, outs with
+  | [], [] => true
+  | OReq m raw :: ops', o :: outs' =>
+      match pick app raw with
+      | None => obs_eqb o no_route_obs
+      | Some c => check_req base c m raw o
+      end && check_ops base app ops' outs'
+  | OStaticUrl k path :: ops', o :: outs' =>
+      match nth_error app k with
+      | None => true
+      | Some c => match o with
+                  | OList [OBytes u] => startswith (c_prefix c ++ path) u
+                  | _ => false
+                  end
+      end && check_ops base app ops' outs'
+  | _, _ => false
+  end.
+
+(* every request of the sequence, whatever was requested (or hashed through static_url)
+   before it, obeys the single-request property relative to the handler that answers it *)
+Definition check_case (i : input) (o : obs) : bool :=
+  let '(base, cwd_tail, hash_cache, hs, ops) := i in
+  match o with
+  | OList outs => check_ops base (app_of cwd_tail hs) ops outs
   | _ => false
   end.
